@@ -84,7 +84,7 @@ pub trait Monitor: Sync {
     fn on_crash(&self, kind: &str, idx: u64, how: &str) -> CaseResult {
         let mut r = CaseResult::new(&format!("worker {} (not judged by this property; see C16)", how), idx);
         r.count("worker_crashes", 1);
-        let _ = kind;
+        r.set("crashed cases", &format!("{}:{}", kind, idx));
         r
     }
     /// minimum numbers the run must have observed, else the verdict is inconclusive
